@@ -51,8 +51,6 @@ def run(tier, seed, scale):
         Phase("dbgmalloc-M", "c18", "rel", 16 if q else 160, procs=2 if q else 4, args=["--mode", "M"], **D),
         Phase("rel-I", "c18", "rel", 6 if q else 40, procs=1, args=["--mode", "I"], **M),
         Phase("dbgmalloc-I", "c18", "rel", 4 if q else 20, procs=1, args=["--mode", "I"], **D),
-        # known finding (every failed initialisation leaks a TLS key): a process of its own, one case
-        Phase("rel-I-1100", "c18", "rel", 1, procs=1, args=["--mode", "I", "--n", "1100"], **M),
     ]
     for i in range(NSHARD):
         phases.append(Phase("rel-X-%d" % i, "c18", "rel", 1, procs=1, args=["--mode", "X", "--shard", str(i), "--nshards", str(NSHARD)], **M))
